@@ -42,7 +42,9 @@ CLAIMS = {
          "(b),(c) tested only"),
  "C14": (TV, "benign family sampled on IsSQLi + correspondence", "Words/numbers family derived from the running keyword table, class sequences up to 7 items, e-mail / decimal / sentence shapes.", "theorem pending"),
  "C15": (TV, "exhaustive short strings without '<' '=' + correspondence", "All strings to depth 3 (thorough 4) over the HTML alphabet minus the two bytes and the html streams with the two bytes removed.", "theorem pending"),
- "C16": (TV, "token record oracle + correspondence", "Every clause of the quantifier text evaluated on token records with before/after offsets in six modes.", "theorem pending"),
+ "C16": (PROOF, "Coq theorem over the tokenizer model (all 22 lexers) + token record oracle + correspondence",
+         "C16_tokens_faithful_ordered_progress: for every byte string and every flag value the model's scan returns (no panic, no fuel exhaustion), the records tile the input from 0, every step consumes at least one byte, each token lies inside its step, its value is exactly the input slice at its offset (length <= 31), its class is a documented class character, and the scan ends at |input|; proved by induction over the tokenizer loop from a per-lexer specification of all 22 lexers plus parseStringCore, with byte sweeps over the regenerated dispatch table and keyword map. The model is tied to the code by the full-width token-record correspondence (six modes) and the same clauses are evaluated directly on the implementation's records.",
+         "model hand-written, tied by correspondence"),
  "C17": (TV, "bounds/order oracle + first-terminator oracle + correspondence", "Bounds, order and count in five contexts; each body placed behind 10 construct openers and compared with an independent first-terminator search, including resumption after the terminator.", "theorem pending"),
  "C18": (TV, "first-real-terminator oracle + correspondence", "Every body behind real / virtual quote, back-tick, @-variable, n' e' u&' prefixes, q-quotes (all 223 delimiters) and dollar tags compared with the find-close oracle.", "theorem pending"),
  "C19": (TV, "decoder reference + encodings of every scheme + correspondence", "Decoder compared with a grammar-directed reference on exhaustive short strings; random encodings of each scheme byte with junk and NUL/LF interleaving must be black, alone and inside URL attributes.", "theorem pending"),
